@@ -19,6 +19,12 @@ CLAIMS["C04"] = dict(
     technique="Coq proof (relational invariant over operation histories) + vm_compute correspondence + fresh-twin differential oracle",
 )
 
+CLAIMS["C02"] = dict(
+    text="Coq theorems: compute_full yields exactly (N + S/2)/S frames of frame_length samples for N >= L/2+1 and none below; frame k is the window [kS, kS+L) of the symmetrically padded signal whose every element is x[sym N (i - pad_left)] (reflection repeated as often as needed), equal to the documented slice of the signal for each style / kaldi_shift when no padding is involved; the segment walk of _compute_frame (and of the torch port) makes tap j meet full-spectrum bin (start+j) mod D for EVERY DFT size, start bin and length, never running out of fuel; hence for complex / analytic banks the accumulated coefficient equals the sum over the full spectrum of phi(X[k] H[k]) with H rebuilt by the documented recipe (abstract commutative monoid, Hermitian-symmetric spectrum); the default frame length keeps a DFT bin strictly inside every filter's support.",
+    note="Trusted: Coq kernel; hand-written models coq/Stft/Model.v (framing) and coq/Stft/Walk.v (walk), tied by exact probes (one-hot filters on a frame with half spectrum 1,2,3,.. for numpy and torch; index-coded frames); np.fft.rfft computes the DFT (Hermitian symmetry is a Section hypothesis). The real-bank factor 2, the energy coefficient, the log floor and float round-off are covered by the independent full-spectrum oracle (1e-8), not by a theorem. default_length_keeps_a_bin is over R (stdlib real axioms).",
+    technique="Coq proofs (induction on the walk's fuel with a modular-arithmetic invariant; list/index algebra; cyclic re-indexing of sums) + exact vm_compute correspondence + independent numeric oracle",
+)
+
 _PENDING = "check not built yet in this round (planned, see DESIGN.md section 4); not claimed until its proof and tie exist"
 NOT_APPLICABLE = {
     "C%02d" % i: _PENDING for i in range(1, 21) if "C%02d" % i not in CLAIMS
